@@ -28,7 +28,7 @@ ASSUMPTIONS = ['a crash during the cache write leaves a prefix of the intended f
 REQUIRED = ['mon.cached_connects', 'mon.cache_hits', 'mon.truncation_offsets', 'mon.truncated_connects',
             'mon.garbled_files', 'mon.crc_collision_cases', 'mon.ro_dir_audited', 'mon.audit_events_seen',
             'mon.files_vanished_before_connect', 'mon.files_with_a_field_missing',
-            'mon.crc_collision_with_one_empty_table']
+            'mon.crc_collision_with_one_empty_table', 'mon.store_load_round_trips']
 DESC_TIMEOUT = 1500
 EXHAUSTIVE = {'quick': False, 'thorough': False}
 EXHAUSTIVE_NOTE = 'truncation offsets are enumerated completely for every written cache file (fetch level); connections on a sample'
@@ -76,6 +76,7 @@ def cases(tier, seed):
         out.append({'seed': seed * 1000003 + i, 'nlog': rnd.randint(0, 12), 'nparam': rnd.randint(0, 12),
                     'proto': rnd.choice((10, 10, 3)), 'config': CONFIGS[i % len(CONFIGS)], 'crc': crc_mode,
                     'connect_samples': 6 if tier == 'quick' else 40, 'latin': i % 4 == 0})
+    out.append({'seed': seed * 31 + 7, 'part': 'storeload'})
     # an empty table whose checksum collides with the (non-empty) table of the other kind
     for j, (nl, npar, cfg) in enumerate(((0, 5, 'rw'), (4, 0, 'rw'), (0, 3, 'ro+rw'), (6, 0, 'none'), (0, 0, 'rw'), (0, 1, 'ro'))):
         out.append({'seed': seed * 1000003 + 5000 + j, 'nlog': nl, 'nparam': npar, 'proto': 10 if j % 2 == 0 else 3, 'config': cfg,
@@ -137,9 +138,50 @@ def connect_once(dev_profile, ro, rw, seed, after_construct=None):
     return ob
 
 
+def run_store_load(desc, ctx):
+    """Store / load round trip at the cache's own interface for elements of EVERY type code each element class
+    knows (including types no simulated firmware announces), every access / extended combination."""
+    from cflib.crazyflie.log import LogTocElement
+    from cflib.crazyflie.param import ParamTocElement
+    from cflib.crazyflie.toc import Toc
+    from cflib.crazyflie.toccache import TocCache
+    rnd = random.Random(desc['seed'])
+    base = tempfile.mkdtemp(prefix='vf_c11s_')
+    try:
+        for cls, codes in ((LogTocElement, sorted(LogTocElement.types)), (ParamTocElement, sorted(ParamTocElement.types))):
+            toc = Toc()
+            ident = 0
+            for code in codes:
+                for flags in ((0x00,), (0x40,), (0x10,), (0x50,)) if cls is ParamTocElement else ((0x00,),):
+                    meta = code | flags[0]
+                    name = ('g%d' % (ident % 3)).encode() + b'\0' + ('v%d_%s' % (ident, cls.types[code][0])).encode() + b'\0'
+                    toc.add_element(cls(ident, bytes([meta]) + name))
+                    ident += 1
+            crc = rnd.getrandbits(32)
+            d = os.path.join(base, cls.__name__)
+            TocCache(rw_cache=d).insert(crc, toc.toc)
+            back = TocCache(rw_cache=d).fetch(crc)
+            ctx.evals()
+            ctx.count('mon.store_load_round_trips')
+            ctx.nontrivial(('storeload', cls.__name__, crc))
+            want = oracles.snapshot_toc(toc)
+            t2 = Toc()
+            t2.toc = back or {}
+            got = oracles.snapshot_toc(t2)
+            if got != want:
+                diff = [(k, {f: (want[k][f], (got.get(k) or {}).get(f)) for f in want[k] if (got.get(k) or {}).get(f) != want[k][f]})
+                        for k in want if got.get(k) != want[k]]
+                ctx.violate('cache:store-load:entries-differ', {'class': cls.__name__, 'differences': core.jsonable(diff[:4])},
+                            replay=dict(desc))
+    finally:
+        shutil.rmtree(base, ignore_errors=True)
+
+
 def run(desc, ctx):
     harness.init()
     worker_init()
+    if desc.get('part') == 'storeload':
+        return run_store_load(desc, ctx)
     rnd = random.Random(desc['seed'])
     prof = gen.profile(desc['seed'], desc['nlog'], desc['nparam'], proto=desc['proto'], latin=desc['latin'])
     if desc['crc'] == 'collide':
